@@ -31,13 +31,13 @@ package participle
 //@ func (*parseContext).Defer [C02 C01]
 //@   modifies p.apply
 //@   ensures len(p.apply) == len(old(p.apply)) + 1 && forall(k, 0, len(old(p.apply)), p.apply[k] == old(p.apply[k]))
-//@   ensures p.apply[len(p.apply)-1] != nil && fresh(p.apply[len(p.apply)-1])
+//@   ensures p.apply[len(p.apply)-1] != nil && fresh(p.apply[len(p.apply)-1]) && fresh(p.apply)
 //@   ensures p.apply[len(p.apply)-1].tokens == tokens && p.apply[len(p.apply)-1].strct == strct && p.apply[len(p.apply)-1].field == field && p.apply[len(p.apply)-1].fieldValue == fieldValue
 
 //@ func (*parseContext).Accept [C02 C01 C13]
 //@   requires branch != nil && p != branch
 //@   modifies p.apply, p.PeekingLexer, p.deepestError, p.deepestErrorDepth
-//@   ensures len(p.apply) == len(old(p.apply)) + len(branch.apply)
+//@   ensures len(p.apply) == len(old(p.apply)) + len(branch.apply) && (p.apply == old(p.apply) || fresh(p.apply))
 //@   ensures forall(k, 0, len(old(p.apply)), p.apply[k] == old(p.apply[k]))
 //@   ensures forall(k, 0, len(branch.apply), p.apply[len(old(p.apply)) + k] == branch.apply[k])
 //@   ensures p.PeekingLexer == branch.PeekingLexer
@@ -73,8 +73,118 @@ package participle
 //@   requires -9223372036854775808 <= p.lookahead && p.lookahead <= 9223372036854775807
 //@   modifies p.apply, p.PeekingLexer, p.deepestError, p.deepestErrorDepth
 //@   ensures @threshold result == (p.lookahead >= 0 && branch.cursor - old(p.cursor) > p.lookahead)
-//@   ensures result ==> p.PeekingLexer == branch.PeekingLexer && len(p.apply) == len(old(p.apply)) + len(branch.apply)
+//@   ensures result ==> p.PeekingLexer == branch.PeekingLexer && len(p.apply) == len(old(p.apply)) + len(branch.apply) && (p.apply == old(p.apply) || fresh(p.apply))
 //@   ensures result ==> forall(k, 0, len(old(p.apply)), p.apply[k] == old(p.apply[k])) && forall(k, 0, len(branch.apply), p.apply[len(old(p.apply)) + k] == branch.apply[k])
 //@   ensures !result ==> p.PeekingLexer == old(p.PeekingLexer) && p.apply == old(p.apply)
 //@   ensures branch.apply == old(branch.apply) && branch.PeekingLexer == old(branch.PeekingLexer)
 //@   ensures p.deepestErrorDepth >= old(p.deepestErrorDepth)
+
+// ---------------------------------------------------------------------------------------------
+// nodes.go
+// ---------------------------------------------------------------------------------------------
+
+// printTrace only writes the trace stream and ctx.depth, which no contract mentions (C15: tracing cannot
+// influence the result). The closure it returns restores depth.
+//@ func (*parseContext).printTrace
+//@   trusted
+//@   modifies p.depth
+
+// wf(n): the grammar node n is well-formed: every child slot is non-nil and well-formed. The node graph is
+// cyclic (productions refer to each other), so wf is an uninterpreted predicate over node identities whose
+// unfoldings are the axioms below; it is established by the tag parser (grammar.go, property C19) and the
+// graph is never written after Build (C09).
+//@ spec fn wf(n node) bool = uf("node_wf", "Bool", n)
+//@ lemma wfNegation(n *negation)
+//@   axiom
+//@   requires wf(iface(n))
+//@   ensures n.node != nil && wf(n.node)
+//@ lemma wfLookahead(l *lookaheadGroup)
+//@   axiom
+//@   requires wf(iface(l))
+//@   ensures l.expr != nil && wf(l.expr)
+//@ lemma wfCapture(c *capture)
+//@   axiom
+//@   requires wf(iface(c))
+//@   ensures c.node != nil && wf(c.node)
+//@ lemma wfGroup(g *group)
+//@   axiom
+//@   requires wf(iface(g))
+//@   ensures g.expr != nil && wf(g.expr)
+//@ lemma wfStrct(s *strct)
+//@   axiom
+//@   requires wf(iface(s))
+//@   ensures s.expr != nil && wf(s.expr)
+//@ lemma wfSequence(s *sequence)
+//@   axiom
+//@   requires wf(iface(s))
+//@   ensures s.node != nil && wf(s.node) && (s.next != nil ==> wf(iface(s.next)))
+//@ lemma wfDisjunction(d *disjunction)
+//@   axiom
+//@   requires wf(iface(d))
+//@   ensures forall(k, 0, len(d.nodes), d.nodes[k] != nil && wf(d.nodes[k]))
+
+// The contract every grammar node's Parse must satisfy (checked for each implementation via "implements").
+//   - the lexer invariant is preserved, cursors only move forward                         [C12 C11 C13 C06]
+//   - a non-match (nil, nil) leaves the lexer position and the deferred captures untouched [C02 C01]
+//   - deferred captures are only ever appended, and every new one targets `parent`        [C02]
+//   - a non-nil error is a participle.Error unless it comes from user code                [C06]
+//@ interface node.Parse
+//@   params self, ctx, parent
+//@   requires ctx != nil && pcInv(ctx) && wf(self)
+//@   modifies ctx.PeekingLexer.Checkpoint, ctx.apply, ctx.deepestError, ctx.deepestErrorDepth, ctx.depth
+//@   ensures pcInv(ctx)
+//@   ensures ctx.rawCursor >= old(ctx.rawCursor) && ctx.cursor >= old(ctx.cursor)
+//@   ensures result1 == nil && len(result0) == 0 ==> ctx.Checkpoint == old(ctx.Checkpoint) && len(ctx.apply) == len(old(ctx.apply))
+//@   ensures ctx.apply == old(ctx.apply) || fresh(ctx.apply)
+//@   ensures len(ctx.apply) >= len(old(ctx.apply)) && forall(k, 0, len(old(ctx.apply)), ctx.apply[k] == old(ctx.apply[k]))
+//@   ensures forall(k, len(old(ctx.apply)), len(ctx.apply), ctx.apply[k] != nil && ctx.apply[k].strct == parent)
+//@   ensures result1 != nil ==> implements(result1, Error) || uf("user_error", "Bool", result1)
+
+// The property's own predicate for "<identifier>" and for a literal "s"[:Type] (C10, C01):
+//@ spec fn refMatch(r *reference, t lexer.Token) bool = t.Type == r.typ
+//@ spec fn litMatch(l *literal, c *parseContext, t lexer.Token) bool = (l.t == lexer.EOF || l.t == t.Type)
+//@      && (l.s == "" || ite(c.caseInsensitive[t.Type], uf("ext_strings.EqualFold_r0", "Bool", t.Value, l.s), t.Value == l.s))
+
+// <identifier>: matches iff the first token from the raw cursor that is EOF, of the referenced type or not elided
+// has the referenced type; consumes through it; captures its text as written.
+//@ func (*reference).Parse [C10 C01 C06 C02]
+//@   implements node.Parse
+//@   ensures err == nil
+//@   ensures out == nil ==> ctx.Checkpoint == old(ctx.Checkpoint) && forall(k, old(ctx.rawCursor), old(ctx.nextCursor)+1, !refMatch(r, ctx.tokens[k]))
+//@   ensures out != nil ==> len(out) == 1
+//@   before call (*lexer.PeekingLexer).FastForward#1: assert refMatch(r, token) && token == ctx.tokens[cursor] && ctx.rawCursor <= cursor && cursor <= ctx.nextCursor && forall(k, ctx.rawCursor, cursor, !refMatch(r, ctx.tokens[k]))
+//@   before call reflect.ValueOf#1: assert token.Type != lexer.EOF ==> ctx.rawCursor == cursor + 1 [C10 C01]
+
+//@ func (*literal).Parse [C10 C01 C06 C02]
+//@   implements node.Parse
+//@   ensures err == nil
+//@   ensures out == nil ==> ctx.Checkpoint == old(ctx.Checkpoint) && forall(k, old(ctx.rawCursor), old(ctx.nextCursor)+1, !litMatch(l, ctx, ctx.tokens[k]))
+//@   ensures out != nil ==> len(out) == 1
+//@   before call (*lexer.PeekingLexer).FastForward#1: assert litMatch(l, ctx, token) && token == ctx.tokens[cursor] && ctx.rawCursor <= cursor && cursor <= ctx.nextCursor && forall(k, ctx.rawCursor, cursor, !litMatch(l, ctx, ctx.tokens[k]))
+//@   before call reflect.ValueOf#1: assert token.Type != lexer.EOF ==> ctx.rawCursor == cursor + 1 [C10 C01]
+
+// !expr: the child runs on a branch that is never adopted; on success exactly one token is taken with Next.
+//@ func (*negation).Parse [C01 C02 C10 C06]
+//@   implements node.Parse
+//@   use wfNegation(n) at entry
+//@   ensures len(ctx.apply) == len(old(ctx.apply))
+//@   ensures err == nil && out != nil ==> ctx.rawCursor == old(ctx.nextCursor) + 1 && ctx.cursor == old(ctx.cursor) + 1 && len(out) == 1
+//@   ensures err != nil ==> ctx.Checkpoint == old(ctx.Checkpoint)
+
+// (?= expr) / (?! expr): never consumes, never defers.
+//@ func (*lookaheadGroup).Parse [C01 C02 C06]
+//@   implements node.Parse
+//@   use wfLookahead(l) at entry
+//@   ensures ctx.Checkpoint == old(ctx.Checkpoint) && len(ctx.apply) == len(old(ctx.apply))
+//@   ensures err == nil ==> out != nil && len(out) == 0
+
+// Capture "@expr": exactly one deferred capture iff the child produced a value; it targets the enclosing struct.
+//@ func (*capture).Parse [C01 C02 C10 C11 C06]
+//@   implements node.Parse
+//@   use wfCapture(c) at entry
+//@   ensures err == nil && out != nil ==> len(ctx.apply) > len(old(ctx.apply))
+//@   ensures @lastEntry len(ctx.apply) > len(old(ctx.apply)) ==> ctx.apply[len(ctx.apply)-1] != nil && ctx.apply[len(ctx.apply)-1].strct == parent
+//@   ensures @otherEntries forall(k, len(old(ctx.apply)), len(ctx.apply)-1, ctx.apply[k] != nil && ctx.apply[k].strct == parent)
+//@   before call (*parseContext).Defer#1: assert forall(k, len(old(ctx.apply)), len(ctx.apply), ctx.apply[k] != nil && ctx.apply[k].strct == parent)
+//@   before call (*parseContext).Defer#1: assert strct == parent && field == c.field && fieldValue == v && len(v) >= 0
+//@   before call (*parseContext).Defer#1: assert tokens == ctx.tokens[start:ctx.rawCursor] [C11 C01]
